@@ -7,6 +7,8 @@
 //   <id> reuse=<0|1> rt=<ms> idle=<0|1> conc=<0|1> | <METHOD> <budget> <pre> <step>;<step>;... | <METHOD> ...
 // bo=<n> (default 1): the back-off of the retry loop (std::this_thread::sleep_for -> nanosleep on the calling thread, 100*2^a ms
 // + jitter) is divided by n through the interposed nanosleep(): large budgets (.. 8) stay affordable in real time.
+// rep=1: a request's script repeats its last step for attempts beyond the script (a peer that fails every time: a retry loop that
+// does not end is stopped by the driver after budget + 4 observed attempts, Ret res = runaway, or by the time bound, res = hung).
 // <pre> = 1: sleep longer than connectionIdleTimeout (1 s in such executions) before the request.
 // A <step> is what happens to the k-th *server-visible* attempt of that logical request (an attempt is visible when it
 // calls connect() or when its request bytes arrive on a kept-alive connection):   kind[:variant][@pos]
@@ -107,6 +109,7 @@ struct CaseSpec
 {
   std::string id;
   int reuse = 1, rt = 400, idle = 0, conc = 0, ct = 200;
+  int rep = 0; // 1: when the script of a request is exhausted the peer repeats its last step (default: answers ok)
   int bo = 1; // back-off divisor: the retry loop's sleeps on the calling thread are shortened by this factor
   std::vector<ReqSpec> reqs;
 };
@@ -147,6 +150,7 @@ static CaseSpec parseCase(const std::string &line)
     if (kv[0] == "idle") c.idle = v;
     if (kv[0] == "conc") c.conc = v;
     if (kv[0] == "bo" && v >= 1) c.bo = v;
+    if (kv[0] == "rep") c.rep = v;
   }
   for (size_t i = 1; i < parts.size(); ++i)
   {
@@ -209,6 +213,7 @@ static const Step *lookupStep(int r, int k)
 {
   if (r < 1 || r > (int)g_case.reqs.size()) return nullptr;
   auto &v = g_case.reqs[r - 1].steps;
+  if (k > (int)v.size() && g_case.rep && !v.empty()) return &v.back(); // a peer that keeps doing the same thing
   if (k < 1 || k > (int)v.size()) return nullptr;
   return &v[k - 1];
 }
